@@ -294,13 +294,15 @@ def emitRst (k : Kernel) (l r : SockAddr) (s : Seg) : Kernel :=
 
 /-- `abort_with` (tcp.rs:755). -/
 def abortWith (cfg : Cfg) (k : Kernel) (fd : Nat) (byReset : Bool) : Kernel :=
-  let _ := cfg
   match k.getSock fd with
   | none => k
   | some s =>
     match s.tcb with
     | none => k
-    | some t => k.setSock fd { s with tcb := some (t.abort byReset) }
+    | some t =>
+      if cfg.fixQuietClose && (t.state == .lastAck || t.state == .closing) then
+        k.setSock fd { s with tcb := some { t with state := .closed, sendBuf := [] } }
+      else k.setSock fd { s with tcb := some (t.abort byReset) }
 
 /-- The two call sites of `abort_with` (RST branch of `handle_on_connection`, abort loop of
     `check_retx`). With `fixReapOrphan` (the F-C13-1 / F-C17-1 repair) a child that is still
